@@ -211,11 +211,18 @@ def run(ctx: Ctx) -> dict:
     sessions = session.run_sessions(ctx, senv, [session.mixed_ops(ctx, senv, rng2, 40 if ctx.quick else 400)
                                                 for _ in range(2 if ctx.quick else 8)], "c18")
     loads = sum(1 for e in sessions[0] if e["op"] == "load.file")
-    if loads == 0:
-        raise MachineryError("session recorded no registry file reads")
+    # Only the ORDER of the observed reads is judged here (a read out of name order composes the files
+    # in another order than the property prescribes). The other clauses of the load phase describe how
+    # the present implementation loads (everything, once, at import); a tree that loads lazily or through
+    # an interface the recorder does not see still satisfies C18 if (B) and (C) above hold, so they are
+    # recorded as notes, never raised.
+    notes = {}
     for n, e, clause in session.validate_sessions(ctx, senv, sessions, "c18sess"):
-        if clause in session.LOAD_CLAUSES:
+        if clause == "file-read-out-of-name-order":
             ctx.violate(clause, {"op": e.get("op"), "clause": clause}, {"session": n, "event": calls.describe_event(e)})
+        elif clause in session.LOAD_CLAUSES:
+            notes[clause] = notes.get(clause, 0) + 1
+    extra["load_phase_notes"] = notes if loads else {"import-reads-not-observable": 1}
     extra["import_file_reads_observed"] = loads
     ctx.samples = [{"op": "merge", "l": pairs[7][0], "r": pairs[7][1]},
                    {"op": "load", "files": [[n, d] for n, d in cfgs[-1]["files"]]},
